@@ -143,6 +143,7 @@ fn pass_2_internal(segment: &Segment, common_context: &CommonContext) -> Result<
                     bail!("Identifier {} is used twice, {}", alias, line);
                 }
             }
+            Item::Def(_, other) => bail!("{} is not a register, {}", other, line),
             Item::Undef(alias) => {
                 if let None = common_context
                     .defs
